@@ -10,7 +10,7 @@
 use std::cell::RefCell;
 use std::collections::HashMap;
 use std::io::{BufRead, Write};
-use tsrun::platform::{RandomProvider, TimeProvider};
+use tsrun::platform::{CompiledRegex, ConsoleLevel, ConsoleProvider, FancyRegexProvider, RandomProvider, RegExpProvider, TimeProvider};
 use tsrun::{api, create_eval_internal_module, Guarded, InternalModule, Interpreter, InterpreterConfig, JsError, JsValue, ModulePath, OrderResponse, RuntimeValue, StepResult};
 
 thread_local! {
@@ -22,6 +22,19 @@ impl TimeProvider for FixedTime {
     fn now_millis(&self) -> i64 { let v = self.0.get(); self.0.set(v + 7); v }
     fn elapsed_millis(&self, start: u64) -> u64 { 100u64.saturating_sub(start.min(100)) }
     fn start_timer(&self) -> u64 { 1 }
+}
+// console output is an observation like every other one (and console.time / timeEnd must follow the host's clock)
+struct ConsoleCapture;
+impl ConsoleProvider for ConsoleCapture {
+    fn write(&self, _level: ConsoleLevel, message: &str) { LOGS.with(|l| l.borrow_mut().push(format!("console:{message}"))); }
+}
+// a host policy for regular expressions: every pattern is compiled case-insensitively (programs marked //@regexp-ci)
+struct CiRegex;
+impl RegExpProvider for CiRegex {
+    fn compile(&self, pattern: &str, flags: &str) -> Result<std::rc::Rc<dyn CompiledRegex>, String> {
+        let f = if flags.contains('i') { flags.to_string() } else { format!("{flags}i") };
+        FancyRegexProvider::new().compile(pattern, &f)
+    }
 }
 struct Lcg(u64);
 impl RandomProvider for Lcg {
@@ -67,8 +80,11 @@ fn host_module() -> InternalModule { InternalModule::native("verif:host").with_f
 
 pub struct Inst { it: Option<Interpreter>, src: String, started: bool, pending: Vec<(u64, String)> }
 
-fn new_interp(seed: u64) -> Interpreter {
+fn new_interp(seed: u64) -> Interpreter { new_interp_for(seed, "") }
+fn new_interp_for(seed: u64, src: &str) -> Interpreter {
     let mut it = Interpreter::with_config(InterpreterConfig { internal_modules: vec![create_eval_internal_module(), host_module()], ..Default::default() });
+    it.set_console(Box::new(ConsoleCapture));
+    if src.contains("//@regexp-ci") { it.set_regexp_provider(std::rc::Rc::new(CiRegex)); }
     it.set_time_provider(Box::new(FixedTime(std::cell::Cell::new(1_700_000_000_000))));
     it.set_random_provider(Box::new(Lcg(seed)));
     it
@@ -80,7 +96,7 @@ fn take_logs() -> String { LOGS.with(|l| l.borrow_mut().drain(..).collect::<Vec<
 fn apply(inst: &mut Inst, op: &str) -> (String, String) {
     LOGS.with(|l| l.borrow_mut().clear());
     match op {
-        "create" => { inst.it = Some(new_interp(42)); inst.started = false; inst.pending.clear(); ("created".into(), "created".into()) }
+        "create" => { inst.it = Some(new_interp_for(42, &inst.src)); inst.started = false; inst.pending.clear(); ("created".into(), "created".into()) }
         "drop" => { inst.it = None; ("dropped".into(), "dropped".into()) }
         "fulfil" => {
             let Some(it) = inst.it.as_mut() else { return ("ignored".into(), "no instance".into()) };
@@ -127,6 +143,7 @@ fn junk(seed: u64) {
         "const a: any[] = []; for (let i = 0; i < 300; i++) a.push({ i, s: 'j' + i, m: new Map([[i, [i]]]) }); a.length;",
         "function f(n: number): number { if (n === 0) throw new Error('junk'); return f(n - 1) + 1; } f(40);",
         "import { order } from 'tsrun:host'; const big = { k: [1, 2, 3] }; await order({ junk: big }); 1;",
+        "const t = ['Hello WORLD'.replace(/world/, 'there'), 'a-B-c'.split(/b/).join('|'), 'xAy'.search(/a/), /^(x+)+y$/.test('XXY')]; console.time('t'); console.timeEnd('t'); t.length;",
         "class J { static n = 0; constructor(public q: string) { J.n++; } } const s = new Set(); for (let i = 0; i < 50; i++) s.add(new J('q' + i)); Symbol('junk').toString();",
     ];
     let mut it = new_interp(seed);
